@@ -25,27 +25,27 @@ type Kind uint8
 
 // Event kinds.
 const (
-	EvDial      Kind = iota + 1 // Dialer invoked
-	EvDialRet                   // Dialer returned (Conn or Err)
-	EvWrite                     // bytes accepted from the client (Conn, Data)
-	EvWriteRet                  // Write returned (Conn, N, Err)
-	EvRead                      // bytes delivered to the client (Conn, Data)
-	EvReadPark                  // reader waits for input (Conn)
-	EvReadErr                   // Read returned an error (Conn, Err)
-	EvSetWDL                    // write deadline (Conn, N=1 set / 0 cleared)
-	EvSetRDL                    // read deadline
-	EvConnClose                 // client closed the connection
-	EvConnBreak                 // harness broke the connection (Str = how)
-	EvStore                     // Persistence operation (N = index in Store.Ops)
-	EvAppStart                  // application invoked ReadSlices
-	EvAppRet                    // ReadSlices returned (N = index in App.Results)
-	EvCallStart                 // request goroutine started (Call)
-	EvCallRet                   // request returned (Call)
-	EvPark                      // goroutine parked at gate (Str)
-	EvUnpark                    // gate released (Str)
-	EvBrokerSend                // broker enqueued bytes for the client (Conn, Data)
-	EvPacket                    // broker completed reception of a packet (Conn, N = index in ConnState.Packets)
-	EvYield                     // a traced hook point was passed (Str)
+	EvDial       Kind = iota + 1 // Dialer invoked
+	EvDialRet                    // Dialer returned (Conn or Err)
+	EvWrite                      // bytes accepted from the client (Conn, Data)
+	EvWriteRet                   // Write returned (Conn, N, Err)
+	EvRead                       // bytes delivered to the client (Conn, Data)
+	EvReadPark                   // reader waits for input (Conn)
+	EvReadErr                    // Read returned an error (Conn, Err)
+	EvSetWDL                     // write deadline (Conn, N=1 set / 0 cleared)
+	EvSetRDL                     // read deadline
+	EvConnClose                  // client closed the connection
+	EvConnBreak                  // harness broke the connection (Str = how)
+	EvStore                      // Persistence operation (N = index in Store.Ops)
+	EvAppStart                   // application invoked ReadSlices
+	EvAppRet                     // ReadSlices returned (N = index in App.Results)
+	EvCallStart                  // request goroutine started (Call)
+	EvCallRet                    // request returned (Call)
+	EvPark                       // goroutine parked at gate (Str)
+	EvUnpark                     // gate released (Str)
+	EvBrokerSend                 // broker enqueued bytes for the client (Conn, Data)
+	EvPacket                     // broker completed reception of a packet (Conn, N = index in ConnState.Packets)
+	EvYield                      // a traced hook point was passed (Str)
 	EvNote
 )
 
@@ -151,6 +151,7 @@ type World struct {
 	failed       bool
 	ConnackPol   ConnackPolicy // default for new connections
 	clientID     string
+	shut         bool
 	NextConnOpts func(c *Conn)
 }
 
@@ -620,9 +621,10 @@ func (w *World) dialer(ctx context.Context) (net.Conn, error) {
 // the application reads until ErrClosed. Best effort; it reports whether
 // everything came to an end within the budget.
 func (w *World) Shutdown(budget time.Duration) (clean bool) {
-	if w.Client == nil {
+	if w.Client == nil || w.shut {
 		return true
 	}
+	w.shut = true
 	w.mu.Lock()
 	w.closedWorld = true // gates and parks open for good
 	w.cond.Broadcast()
